@@ -2,6 +2,7 @@
 from framework import CaseResult, text_points, points_text
 from props.textcommon import run_text_tool, model_inputs, out_lines, input_lines
 
+GEN_FILES = ["GenText"]
 RULE = ("lines over a weighted ASCII alphabet (letters of both cases, digits, blanks, punctuation, double quotes in runs of 1..6, "
         "adjacent/empty/unterminated literals), 1..3 inputs as files and/or stdin, LF/CRLF/CR terminators, with/without final newline; "
         "thorough adds every line over {a,\",space,B} up to length 7. signature = sorted set of features "
